@@ -606,6 +606,14 @@ func (vf *VFlow) callResult(t ssa.Value, idx int, fl uint8, out LabelSet, seen m
 			vf.walk(com.Args[0], fl, out, seen, depth+1)
 			return
 		}
+	case "slices.MinFunc", "slices.MaxFunc", "slices.Min", "slices.Max":
+		// one of the elements
+		if len(com.Args) > 0 && idx == 0 {
+			for l := range vf.objLabels(com.Args[0], depth+1) {
+				vf.elemOf(l, fl, out, seen, depth+1)
+			}
+			return
+		}
 	case "maps.Keys":
 		if len(com.Args) > 0 && idx == 0 {
 			for l := range vf.objLabels(com.Args[0], depth+1) {
